@@ -13,6 +13,9 @@ import ast
 
 from ..core import AnalysisError, norm, loc, walk_no_nested, attr_chain, call_name, Record
 from ..cfg import CFG
+from ..core import func_params
+from ..normalize import inline, local_env, expand, canon, ctext, conjuncts, branch_values, Unknown, _enclosing
+from .. import flow
 from . import c02
 
 NSS = 'fim.slivers.network_service:NetworkServiceSliver'
@@ -94,12 +97,22 @@ def run(prog, rep):
     tv = topo.methods.get('validate')
     if tv is None:
         raise AnalysisError('Topology.validate vanished')
+    vn = inline(prog, uns, vn)
+    vc = inline(prog, uns, vc)
+    tv = inline(prog, topo, tv)
     cols_read = set()
+
+    def is_limit(e, col=None):
+        """<...>ServiceConstraints[<type>].<col> (temporaries must have been expanded)"""
+        return isinstance(e, ast.Attribute) and isinstance(e.value, ast.Subscript) and ast.unparse(e.value.value).endswith('ServiceConstraints') \
+            and (col is None or e.attr == col)
     for fn in (vn, vc, tv):
+        fenv = local_env(fn)
         for n in ast.walk(fn):
-            if isinstance(n, ast.Attribute) and isinstance(n.value, ast.Subscript) and \
-                    ast.unparse(n.value.value).endswith('ServiceConstraints'):
-                cols_read.add(n.attr)
+            if isinstance(n, ast.Attribute):
+                e = expand(n, fenv)
+                if is_limit(e):
+                    cols_read.add(e.attr)
     rec_cols = [c for c in next(iter(folded['ServiceConstraints'].values())).keys() if c not in ('desc', 'layer')]
     for col in rec_cols:
         rep.instance('R3', f'ServiceConstraints column {col} consulted by validation: {col in cols_read}')
@@ -126,39 +139,80 @@ def run(prog, rep):
                           f'Topology.validate does not call validate_constraints on {v}: the per-type constraints of those '
                           f'elements are never enforced')
 
-    # R4 comparators
-    want = {'min_interfaces': ('len(interfaces)', ast.Lt), 'num_interfaces': ('len(interfaces)', ast.Gt),
-            'num_sites': ('len(sites)', ast.Gt)}
-    for col, (lhs, op) in want.items():
-        found = False
-        for n in ast.walk(vn):
-            if isinstance(n, ast.If) and isinstance(n.test, ast.Compare) and f'.{col}' in ast.unparse(n.test) and \
-                    'NO_LIMIT' not in ast.unparse(n.test):
-                t = n.test
-                l, r, o = ast.unparse(t.left), ast.unparse(t.comparators[0]), type(t.ops[0])
-                flip = {ast.Lt: ast.Gt, ast.Gt: ast.Lt, ast.LtE: ast.GtE, ast.GtE: ast.LtE}
-                if l.endswith('.' + col):
-                    l, r, o = r, l, flip.get(o, o)
-                found = True
-                rep.instance('R4', f'__validate_nstype_constraints: {norm(t, 110)}')
-                raises = any(isinstance(x, ast.Raise) for x in n.body)
-                # guarded by != NO_LIMIT on the same column
-                p = n
-                guarded = False
-                while p is not vn:
-                    p = p._parent
-                    if isinstance(p, ast.If) and f'.{col}' in ast.unparse(p.test) and 'NO_LIMIT' in ast.unparse(p.test) \
-                            and isinstance(p.test, ast.Compare) and isinstance(p.test.ops[0], ast.NotEq):
-                        guarded = True
-                if l != lhs or o is not op or not raises:
-                    rep.violation('R4', loc(vmod, n), 'NetworkService.__validate_nstype_constraints', norm(t, 120),
-                                  f'column {col} must reject when {lhs} {"<" if op is ast.Lt else ">"} the limit')
-                if not guarded:
-                    rep.violation('R4', loc(vmod, n), 'NetworkService.__validate_nstype_constraints',
-                                  f'{col} test not behind != NO_LIMIT', f'the {col} limit is applied even when it is NO_LIMIT (0)')
-        if not found:
+    # R4 comparators: path conditions of every rejection in __validate_nstype_constraints
+    def raise_sink(st):
+        return ast.Constant(value='raise') if isinstance(st, ast.Raise) else None
+    class _Rej:
+        def __init__(self, stmt, nodes):
+            self.stmt = stmt
+            self.cond_nodes = nodes
+    venv = local_env(vn)
+    rejections = []
+    for r_ in walk_no_nested(vn):
+        if isinstance(r_, ast.Raise):
+            _, cs = _enclosing(r_, vn)
+            nodes = []
+            for c_ in cs:
+                nodes.extend(conjuncts(canon(expand(c_, venv))))
+            rejections.append(_Rej(r_, nodes))
+    iparam = [p_ for p_ in func_params(vn) if p_ not in ('self', 'nstype')]
+    iparam = iparam[-1] if iparam else 'interfaces'
+    site_sets = {c.func.value.id for c in ast.walk(vn) if isinstance(c, ast.Call) and call_name(c) == 'add' and isinstance(c.func.value, ast.Name)
+                 and c.args and isinstance(c.args[0], ast.Attribute) and c.args[0].attr == 'site'}
+
+    def is_len_of(e, names):
+        return isinstance(e, ast.Call) and isinstance(e.func, ast.Name) and e.func.id == 'len' and len(e.args) == 1 and \
+            isinstance(e.args[0], ast.Name) and e.args[0].id in names
+
+    def no_limit_guard(node, col):
+        return isinstance(node, ast.Compare) and len(node.ops) == 1 and isinstance(node.ops[0], ast.NotEq) and \
+            any(is_limit(x, col) for x in (node.left, node.comparators[0])) and \
+            any(isinstance(x, ast.Attribute) and x.attr == 'NO_LIMIT' for x in (node.left, node.comparators[0]))
+    want = {'min_interfaces': ('fewer', {iparam}), 'num_interfaces': ('more', {iparam}), 'num_sites': ('more', site_sets)}
+    for col, (sense, names) in want.items():
+        hits = []
+        for o in rejections:
+            for node in o.cond_nodes:
+                if isinstance(node, ast.Compare) and len(node.ops) == 1 and any(is_limit(x, col) for x in (node.left, node.comparators[0])) \
+                        and not no_limit_guard(node, col):
+                    hits.append((o, node))
+        rep.instance('R4', f'__validate_nstype_constraints: rejections conditioned on {col}: {sorted({ctext(n) for _, n in hits})}')
+        if not hits:
             rep.violation('R4', loc(vmod, vn), 'NetworkService.__validate_nstype_constraints', f'{col} never compared',
                           f'no comparison against the {col} limit was found')
+            continue
+        for o, node in hits:
+            l, r, op_ = node.left, node.comparators[0], node.ops[0]
+            # canonical form has only < and <= (mirrored); "fewer than the limit": len < limit ; "more than the limit": limit < len
+            ok = isinstance(op_, ast.Lt) and ((sense == 'fewer' and is_len_of(l, names) and is_limit(r, col)) or
+                                              (sense == 'more' and is_limit(l, col) and is_len_of(r, names)))
+            if not ok:
+                rep.violation('R4', loc(vmod, o.stmt), 'NetworkService.__validate_nstype_constraints', ctext(node),
+                              f'column {col} must reject exactly when the count is {"below" if sense == "fewer" else "above"} the limit')
+            if not any(no_limit_guard(n2, col) for n2 in o.cond_nodes):
+                rep.violation('R4', loc(vmod, o.stmt), 'NetworkService.__validate_nstype_constraints',
+                              f'{col} test not behind != NO_LIMIT', f'the {col} limit is applied even when it is NO_LIMIT (0)')
+    # the site limit is applied to the complete set of sites: the test is evaluated after the loop that collects the sites, or
+    # inside it after the site of the current interface has been added
+    for ss in site_sets:
+        adds = [c for c in ast.walk(vn) if isinstance(c, ast.Call) and call_name(c) == 'add' and isinstance(c.func.value, ast.Name) and c.func.value.id == ss]
+        tests = [n for n in ast.walk(vn) if isinstance(n, ast.If) and any(isinstance(x, ast.Raise) for x in n.body) and
+                 any(is_len_of(x, {ss}) for x in ast.walk(n.test))]
+        vcfg = CFG(vn)
+        vdom = vcfg.dominators()
+        for t in tests:
+            loops_t = [p_ for p_ in _ancestors(t, vn) if isinstance(p_, (ast.For, ast.While))]
+            coll = [l for l in loops_t if any(any(x is a for x in ast.walk(l)) for a in adds)]
+            okt = True
+            if coll:
+                tn = flow.node_of(vcfg, t.test)
+                okt = tn is not None and any(flow.node_of(vcfg, a) is not None and flow.node_of(vcfg, a).id in vdom.get(tn.id, ()) and
+                                             _same_iteration(a, t, coll[0]) for a in adds)
+            rep.instance('R4', f'__validate_nstype_constraints: site limit test {norm(t.test, 70)} sees the complete site set: {okt}')
+            if not okt:
+                rep.violation('R4', loc(vmod, t), 'NetworkService.__validate_nstype_constraints', 'site limit tested before the current site is counted',
+                              'the site limit is compared inside the loop that collects the sites, before the site of the interface being '
+                              'examined is added: the site of the last interface is never counted, so a service spanning one site too many validates')
     # num_instances in Topology.validate
     ni = [n for n in ast.walk(tv) if isinstance(n, ast.If) and isinstance(n.test, ast.Compare) and
           '.num_instances' in ast.unparse(n.test) and 'NO_LIMIT' not in ast.unparse(n.test)]
@@ -262,6 +316,26 @@ def run(prog, rep):
     if not multi:
         rep.violation('R6', loc(vmod, vn), 'NetworkService.__validate_nstype_constraints', 'multi-site with declared site accepted',
                       'a multi-site service with a declared site must be rejected')
+
+
+def _ancestors(node, fn):
+    p = getattr(node, '_parent', None)
+    while p is not None and p is not fn:
+        yield p
+        p = getattr(p, '_parent', None)
+
+
+def _same_iteration(add_call, test_if, loop):
+    """the add statement precedes the test in the body of `loop` (so within one iteration the test sees the new element)"""
+    def top(n):
+        while getattr(n, '_parent', None) is not loop:
+            n = n._parent
+        return n
+    body = list(loop.body)
+    ta, tt = top(add_call), top(test_if)
+    if any(x is ta for x in body) and any(x is tt for x in body):
+        return [i for i, x in enumerate(body) if x is ta][0] < [i for i, x in enumerate(body) if x is tt][0]
+    return False
 
 
 def cond_rejects(test, var, sv, required):
